@@ -7,8 +7,8 @@ def register(m):
     m("C16", "c16-noreduce-sign", S, "    return Eq(atomic * (-1 * scale), rhs)", "    return Eq(atomic * scale, rhs)", "Q3")
     m("C16", "c16-drops-last-term", S, "    combination_rhs = combination[:i] + combination[i + 1:]", "    combination_rhs = combination[:i] + combination[i + 2:]", "Q3")
     m("C16", "c16-wrong-scale", S, "    scale = combination[i][1]", "    scale = combination[0][1]", "Q3")
-    m("C16", "c16-type-check-removed", S, "    if not is_vector_expr(expr):\n        raise TypeError(f\"Expected '{expr}' to be a vector.\")\n", "", "Q1")
+    m("C16", "c16-type-check-removed", S, "    if not is_vector_expr(expr):\n        raise TypeError(f\"Expected '{expr}' to be a vector.\")\n", "", "SILENT", note="into_terms refuses a non-vector itself (ValueError): still a refusal, which is all the property asks for")
     m("C16", "c16-missing-unknown-ignored", S, "    if i is None:\n        raise ValueError(f\"The expression {expr} does not contain the symbol {atomic}.\")\n", "    if i is None:\n        i = 0\n", "Q1")
-    m("C16", "c16-eq-sum", S, "        expr = expr.lhs - expr.rhs", "        expr = expr.lhs + expr.rhs", "Q1")
+    m("C16", "c16-eq-sum", S, "        expr = expr.lhs - expr.rhs", "        expr = expr.lhs + expr.rhs", ("Q1", "Q3"))
     m("C16", "c16-apply-one-side", S, "    return Eq(f(lhs), f(rhs), evaluate=False)", "    return Eq(f(lhs), rhs, evaluate=False)", "Q2")
     m("C16", "c16-equivalent-ok", S, "        rhs = Add(*(v * (-1 * s / scale) for v, s in combination_rhs))", "        rhs = Add(*(-v * s / scale for v, s in combination_rhs))", "SILENT")
